@@ -16,6 +16,8 @@ def run(ctx):
         "qualifier is the citation rewrite."
     )
     r.not_decided = ["Biopython's shift arithmetic for compound and fuzzy locations", "the 'conversely' direction follows from (c) only"]
-    run_kernels(ctx, ["K5", "K7", "K8"], "C08")
+    run_kernels(ctx, ["K5", "K7", "K8", "K3", "K14"], "C08")
+    from ..rules_flow import getitem_rule
+    getitem_rule(ctx, "C08.slice")
     eff, sites = assembly_write_set(ctx, "C08.write-set")
     feature_writers(ctx, "C08", eff, sites)
